@@ -81,7 +81,11 @@ batch_op = st.fixed_dictionaries(
     {"o": st.just("batch"), "t": st.sampled_from(["step", "step", "port", "target", "deployment", "filter", "workflow", "token"]), "i": st.integers(0, 20),
      "items": st.lists(batch_item, min_size=2, max_size=5)}
 )
-history = st.lists(st.one_of(add_op, add_op, upd_op, upd_op, get_op, get_op, get_op, mut_op, batch_op, gug_op), min_size=1, max_size=30)
+history = st.builds(
+    lambda first, rest: [first, *rest],
+    add_op,  # a history on an empty database starts by creating something
+    st.lists(st.one_of(add_op, add_op, upd_op, upd_op, get_op, get_op, get_op, mut_op, batch_op, gug_op), max_size=29),
+)
 det_case = st.fixed_dictionaries({"ops": history, "schedule": st.lists(st.integers(0, 3), max_size=10)})
 aio_case = st.fixed_dictionaries({"ops": history})
 
@@ -721,6 +725,7 @@ class Interp:
     def finish(self) -> None:
         rec = self.rec
         rec.label(*(f"{k}>0" for k, v in self.counts.items() if v))
+        rec.label(*(f"rows:{t}" for t, ids in self.ids.items() if ids))
         if self.updated_while_cached:
             rec.label("update-of-cached-row")
         if self.mutated:
@@ -751,17 +756,20 @@ class _gc_guard:
     """cachebox 6.2.0 (pinned by the repository) can dead-lock the interpreter when a full garbage collection starts while
     its ``cached`` wrapper runs ``locks.setdefault_with(key, <python callable>)``: the collector traverses the Cache object,
     whose traverse hook takes the mutex the same thread already holds (observed once in a long run; back trace in the
-    agent report). Collections are therefore postponed to the end of each case; this changes no program semantics."""
+    agent report). Collections are therefore postponed to the end of each case (the runner does the same around every case; this guard keeps
+    the module safe when it is driven directly); this changes no program semantics."""
 
     def __enter__(self):
         import gc
 
+        self.was_enabled = gc.isenabled()  # vf.runner.call_case already defers collections; then this is a no-op
         gc.disable()
 
     def __exit__(self, *a):
         import gc
 
-        gc.enable()
+        if self.was_enabled:
+            gc.enable()
 
 
 @prop.given("det", det_case, quick=1600, thorough=80000, max_shards=10)
@@ -802,7 +810,14 @@ async def _check_det(case, rec):
             shutil.rmtree(tmp, ignore_errors=True)
 
 
-@prop.given("aiosqlite", aio_case, quick=360, thorough=16000, loop="std", case_timeout=120.0, max_shards=6)
+def _warmup() -> None:
+    """Per shard, before the first case: pay the import cost (several seconds, much more on a loaded machine) outside the
+    per-case safety net."""
+    import streamflow.main  # noqa: F401
+    import vf.persist_gen  # noqa: F401
+
+
+@prop.given("aiosqlite", aio_case, quick=360, thorough=16000, loop="std", case_timeout=300.0, max_shards=6, setup=_warmup)
 async def check_aio(case, rec):
     with _gc_guard():
         await _check_aio(case, rec)
